@@ -289,7 +289,7 @@ TypingSound == IsObj(doc) =>
 \* the bounded grammar really is bounded as announced
 GrammarBound == Mode = "grammar" => (Depth(doc) <= MaxDepth /\ Nodes(doc) <= MaxNodes)
 \* bases are clean, one injection breaks exactly the rule it is named after and nothing else
-BaseClean  == (Len(faults) = 0 /\ Mode = "faults") => (WellTyped(doc) /\ Broken(doc) = {})
+BaseClean  == (Len(faults) = 0 /\ Mode = "faults") => Verdict(doc).cls = "clean"
 FaultExact == Len(faults) = 1 => (WellTyped(doc) /\ Broken(doc) = {faults[1]})
 FaultCode  == Len(faults) = 1 => LET v == Verdict(doc) IN (v.cls = "one-fault" /\ v.codes = Codes(faults[1]))
 \* stacked injections never repair: the last injected rule stays broken
